@@ -7,7 +7,7 @@ V = os.path.normpath(os.path.join(os.path.dirname(os.path.abspath(__file__)), ".
 args = sys.argv[1:]
 res_path = os.path.join(V, "harmless", "RESULTS.json")
 results = json.load(open(res_path)) if os.path.exists(res_path) else {}
-for d in sorted(glob.glob(os.path.join(V, "harmless", "[hg]*", ""))):
+for d in sorted(glob.glob(os.path.join(V, "harmless", "[hgk]*", ""))):
     name = os.path.basename(os.path.dirname(d))
     if args and name not in args:
         continue
